@@ -272,7 +272,7 @@ pub fn run(r: &mut Runner) {
         fixed.push(Case::Parse { text: t.to_string() });
     }
     // very long numbers: fractions of 20 … 400 digits, integer parts of 20 … 60 digits
-    for t in ["1h ", "1h\n", "90m\t", "1h\u{a0}", " 1h", "1h  ", "1s\r\n", "\t1s", "1 h", "1h 30m"] {
+    for t in ["--1h", "---5m", "--0", "-+1s", "+-1s", "++1s", "- 1s", "1h-", "-", "+", "--", "1h--30m", "1h ", "1h\n", "90m\t", "1h\u{a0}", " 1h", "1h  ", "1s\r\n", "\t1s", "1 h", "1h 30m"] {
         fixed.push(Case::Parse { text: t.to_string() });
     }
     for n in [19usize, 20, 38, 39, 40, 64, 127, 128, 129, 200, 400] {
